@@ -294,10 +294,37 @@ func viewOf(r *Replica) string {
 	return sb.String()
 }
 
-// docReads walks the document through GetFromObject / GetFromArray and prints every value.
+// docReads walks the document through GetFromObject / GetFromArray and prints every value. The other read paths of the
+// API (GetByPath, GetManyFromArray, ToJSONBytes, GetParentDocument, GetRootDocument) must agree with that walk: a
+// disagreement is printed into the view, where it differs from the reference and from the other replicas.
 func docReads(sb *strings.Builder, d orda.Document, depth int) {
+	docReadsAt(sb, d, d, "", true, depth)
+}
+
+func docReadsAt(sb *strings.Builder, root, d orda.Document, path string, pathOK bool, depth int) {
 	if d == nil || depth > 40 {
 		return
+	}
+	if depth > 0 {
+		if r := d.GetRootDocument(); r == nil || !r.Equal(root) {
+			sb.WriteString("!inconsistent(GetRootDocument)")
+		}
+		if pathOK {
+			if bp, err := root.GetByPath(path); err != nil || bp == nil || jsonStr(bp.GetValue()) != jsonStr(d.GetValue()) {
+				fmt.Fprintf(sb, "!inconsistent(GetByPath %s)", path)
+			}
+		}
+	}
+	var viaBytes interface{}
+	if json.Unmarshal(d.ToJSONBytes(), &viaBytes) != nil || jsonStr(viaBytes) != jsonStr(d.GetValue()) {
+		sb.WriteString("!inconsistent(ToJSONBytes)")
+	}
+	join := func(seg string) (string, bool) {
+		ok := pathOK && seg != "" && !strings.ContainsAny(seg, "/~")
+		if path == "" {
+			return seg, ok
+		}
+		return path + "/" + seg, ok
 	}
 	switch d.GetTypeOfJSON() {
 	case orda.TypeJSONObject:
@@ -314,20 +341,37 @@ func docReads(sb *strings.Builder, d orda.Document, depth int) {
 			if err != nil || c == nil {
 				fmt.Fprintf(sb, "!nil(%v)", err != nil)
 			} else {
-				docReads(sb, c, depth+1)
+				if p := c.GetParentDocument(); p == nil || !p.Equal(d) {
+					sb.WriteString("!inconsistent(GetParentDocument)")
+				}
+				cp, ok := join(k)
+				docReadsAt(sb, root, c, cp, ok, depth+1)
 			}
 			sb.WriteString(",")
 		}
 		sb.WriteString("}")
 	case orda.TypeJSONArray:
 		a, _ := d.GetValue().([]interface{})
+		if len(a) > 0 {
+			many, err := d.GetManyFromArray(0, len(a))
+			if err != nil || len(many) != len(a) {
+				sb.WriteString("!inconsistent(GetManyFromArray)")
+			} else {
+				for i, e := range many {
+					if e == nil || jsonStr(e.GetValue()) != jsonStr(a[i]) {
+						fmt.Fprintf(sb, "!inconsistent(GetManyFromArray %d)", i)
+					}
+				}
+			}
+		}
 		sb.WriteString("[")
 		for i := range a {
 			c, err := d.GetFromArray(i)
 			if err != nil || c == nil {
 				fmt.Fprintf(sb, "!nil(%v)", err != nil)
 			} else {
-				docReads(sb, c, depth+1)
+				cp, ok := join(strconv.Itoa(i))
+				docReadsAt(sb, root, c, cp, ok, depth+1)
 			}
 			sb.WriteString(",")
 		}
